@@ -207,7 +207,7 @@ void prop_c08(hz::Ctx &ctx) {
   }
   auto gen_case = rc::gen::apply([&](int q, int d, int mode, int cidx, int combo, int ncalls, bool safe, int seed, bool re) { C08Case c; c.q = q; c.delta = d; c.mode = mode; c.cidx = cidx; c.combo = combo; c.ncalls = ncalls; c.safe = safe; c.seed = (uint64_t)seed; c.poolseed = ctx.seed; c.reassemble = re; return c; },
     range(1, 6), range(-3000, 3001), range(0, 3), range(0, 13), range(0, 12), range(1, 9), rc::gen::arbitrary<bool>(), range(0, 1 << 30), rc::gen::arbitrary<bool>());
-  rc_rounds(ctx, "C08-programs", ctx.thorough() ? 20000 : 1500, 100, [&]() { C08Case c = *gen_case; run(c, "part:random", true); }, 100);
+  rc_rounds(ctx, "C08-programs", ctx.thorough() ? 30000 : 4000, 100, [&]() { C08Case c = *gen_case; run(c, "part:random", true); }, 100);
 }
 
 int replay_buf(const std::string &caseid) {
